@@ -53,8 +53,12 @@ ASSUMPTIONS = [
     "at atol 1e-4 (library cg rtol 1e-5); theta of whitened fits at atol 2e-3 (cg error amplified by "
     "cond(V) <= 100)",
     "fits: bases with cond(X X') > 1e8 (with V: cond(X V^-1 X') > 1e3) are outside the domain "
-    "(solution not determined to the stated tolerance); whitened fits use sigma_k with cond(V) <= 100 because the library's CG whitening (rtol 1e-5) loses accuracy with cond(V); fit_regress(_nn) pool the data without "
-    "sigma_k also for complete RDMs, the reference does the same",
+    "(solution not determined to the stated tolerance); whitened fits use sigma_k with "
+    "cond(V) <= 100 because the library's CG whitening (rtol 1e-5) loses accuracy with cond(V)",
+    "fit_regress(_nn) pool the data without sigma_k also for complete RDMs (pinned tree) or with "
+    "sigma_k (C08 repair); the reference accepts either pooling - which one is right belongs to C08",
+    "fit_regress_nn can spin for ever on data with a large dynamic range (absolute stopping "
+    "threshold 100*eps); a 3 s watchdog marks such cases inconclusive",
     "numpy.linalg.inv/solve and scipy.optimize.nnls are trusted",
 ]
 
@@ -598,18 +602,25 @@ def check_fit(case):
         raise Reject('constant row after sampling', 'degenerate:constant-row')
     xb, xd = xb[:, keep], xd[:, keep]
     v = cref.dense_v_kept(n, keep, sk) if method in WHITENED else None
-    # fit_regress(_nn) pool the data with util.pooling.pool_rdm(data, method) WITHOUT sigma_k
-    # (also for complete RDMs), so the reference pools with the sigma_k=None V sub-block
-    v_pool = cref.dense_v_kept(n, keep, None) if method in WHITENED else None
-    y = pooled_ref(xd, method, 'pooling', v_pool)
-    try:
-        cref.check_pooled(y, method)
-    except cref.Degenerate as e:
-        raise Reject(str(e), 'degenerate:zero-pool')
+    # Which V normalises the data RDMs before they are pooled is not C13's business: the pinned
+    # tree pools with util.pooling.pool_rdm(data, method) WITHOUT sigma_k (also for complete
+    # RDMs), the C08 repair passes sigma_k on.  Both are accepted; they coincide for one data
+    # RDM or sigma_k=None.
     if method in cref.CORR_TYPES:
         xb = xb - xb.mean(axis=1, keepdims=True)
-        y = y - y.mean()
-    want, cond = fit_reference(xb, y, case['fn'], v)
+    wants = []
+    pools = [None] if (sk is None or len(xd) == 1 or method not in WHITENED) else [None, sk]
+    for sk_pool in pools:
+        v_pool = cref.dense_v_kept(n, keep, sk_pool) if method in WHITENED else None
+        y = pooled_ref(xd, method, 'pooling', v_pool)
+        try:
+            cref.check_pooled(y, method)
+        except cref.Degenerate as e:
+            raise Reject(str(e), 'degenerate:zero-pool')
+        if method in cref.CORR_TYPES:
+            y = y - y.mean()
+        wants.append(fit_reference(xb, y, case['fn'], v)[0])
+    want = wants[0]
     # library whitening solves V x = b by conjugate gradients with rtol 1e-5: relative error of
     # V^-1 x up to cond(V)*1e-5 = 1e-3 on the restricted domain (cond(V) <= 100), doubled.
     # measured on 25000 cases: <= 2.5e-4 (and up to 5e-3 for cond(V) > 1e3, hence the restriction)
@@ -621,6 +632,8 @@ def check_fit(case):
                     sig=sig + ':raises', **kwargs)
     theta = np.asarray(theta, dtype=float)
     require(theta.shape == want.shape, 'theta shape %s' % (theta.shape,), sig + ':shape')
+    if len(wants) > 1 and core.close(theta, wants[1], 0, atol):
+        want = wants[1]
     require_close(theta, want, 'fit_%s(%s, %s) with %d missing entries (%s mask) vs the fit on the '
                   'remaining entries' % (case['fn'], method, sigma_label(case['sigma']),
                                          int((~keep).sum()), case['mask_kind']),
